@@ -1,6 +1,6 @@
 (* C05 -- handles returned by add operations are true offsets of the node they name. Statements only. *)
 From Coq Require Import NArith List.
-From ACPI Require Import Lib.Bytes Lib.Sx Lib.Machine Impl.Table Proofs.TableP Proofs.Tables.
+From ACPI Require Import Lib.Bytes Lib.Sx Lib.Machine Impl.Table Proofs.TableP Proofs.Tables Proofs.Registry.
 Import ListNotations.
 Open Scope N_scope.
 
